@@ -498,8 +498,8 @@ func (g *Gen) harnessFrom(o *Occ) {
 	g.hs = append(g.hs, name)
 	var ex strings.Builder
 	for _, s := range o.Excluded {
-		if strings.ContainsAny(s.GoType, "[]*") || s.F.GetType() == TMessage || s.F.GetType() == TBytes {
-			continue
+		if strings.ContainsAny(s.GoType, "[]*") || s.F.GetType() == TMessage || s.F.GetType() == TBytes || s.F.OneofIndex != nil {
+			continue // (an excluded oneof branch lives in its wrapper, not in a struct field)
 		}
 		fmt.Fprintf(&ex, "\tvrt.Assert(\"C05/%s/%s:excluded-untouched\", p.%s == p0.%s)\n", o.ID, s.GoName, s.GoName, s.GoName)
 	}
